@@ -1,2 +1,3 @@
+pub mod cli;
 pub mod core;
 pub mod sandbox;
